@@ -202,3 +202,106 @@ def selftest_tokens_vs_strict(_p=None):
                         if v1[0] == 'obname' and (v1[1][0], v1[1][1], tk.text_str(v1[1][2])) != v2:
                             return {'ok': False, 'detail': f'obname differs for {a2.label}'}
     return {'ok': True, 'cases': cases}
+
+
+def selftest_npstub(_p=None):
+    """Differential validation of vf.stubs.npstub against real numpy on small concrete arrays: slice clamping,
+    views vs copies, field assignment (copy / broadcast / error), row iteration (scalar vs sub-array element dtype and
+    byte order), byteswap / astype / tobytes memory order, structured dtype equality, native byte order."""
+    import sys
+    import numpy as np
+    from vf.stubs import npstub as nps
+    if (sys.byteorder == 'little') != (nps.NATIVE == '<'):
+        return {'ok': False, 'detail': 'native byte order'}
+    rnd = random.Random(11)
+    cases = 0
+    total = 9
+    for order in ('<', '>'):
+        for name, w in (('int16', None), ('float32', 3), ('uint32', 2), ('float64', None)):
+            real_dt = np.dtype(name).newbyteorder(order)
+            src = (np.arange(total * (w or 1)).reshape((total, w) if w else (total,)) % 100).astype(real_dt)
+            stub = nps.ndarray('caller', 'c', 0, total, nps.SDtype(name, order), w)
+            if stub.shape != src.shape or stub.ndim != src.ndim or len(stub) != len(src):
+                return {'ok': False, 'detail': 'shape'}
+            for _ in range(60):
+                lo, hi = rnd.choice([None, rnd.randrange(-12, 12)]), rnd.choice([None, rnd.randrange(-12, 12)])
+                r, s = src[lo:hi], stub[lo:hi]
+                cases += 1
+                if not np.array_equal(r, src[s.a:s.b]) or s.shape != r.shape:
+                    return {'ok': False, 'detail': f'slice [{lo}:{hi}]'}
+                if np.shares_memory(r, src) != (s.is_view and s.owner == 'caller') and len(r):
+                    return {'ok': False, 'detail': 'view flag'}
+                r2, s2 = r[1:3], s[1:3]
+                if not np.array_equal(r2, src[s2.a:s2.b]):
+                    return {'ok': False, 'detail': 'nested slice'}
+            # chunk assembly and row iteration
+            fdt = [('k', real_dt, w)] if w else [('k', real_dt)]
+            sdt = nps.dtype([('k', nps.SDtype(name, order), w)] if w else [('k', nps.SDtype(name, order))])
+            if not isinstance(sdt, nps.dtype) or sdt.names != np.dtype(fdt).names:
+                return {'ok': False, 'detail': 'struct dtype'}
+            for n, lo, hi in ((4, 2, 6), (4, 3, 4), (4, 1, 4), (1, 5, 6)):
+                rc = np.zeros(n, dtype=np.dtype(fdt))
+                sc = nps.zeros(n, dtype=sdt)
+                try:
+                    rc['k'] = src[lo:hi]
+                    rerr = None
+                except ValueError as e:
+                    rerr = e
+                try:
+                    sc['k'] = stub[lo:hi]
+                    serr = None
+                except ValueError as e:
+                    serr = e
+                cases += 1
+                if (rerr is None) != (serr is None):
+                    return {'ok': False, 'detail': f'field assignment {hi - lo} rows into {n}: real {rerr}, stub {serr}'}
+                if rerr is not None:
+                    continue
+                if np.shares_memory(rc, src):
+                    return {'ok': False, 'detail': 'field assignment must copy'}
+                for i, (rrow, srow) in enumerate(zip(rc, sc)):
+                    (re,), (se,) = tuple(rrow), tuple(srow)
+                    want_vals = np.asarray(src[se.row]).reshape(-1)
+                    if not np.array_equal(np.asarray(re).reshape(-1), want_vals):
+                        return {'ok': False, 'detail': f'row provenance {i}'}
+                    if isinstance(re, np.ndarray) != (se.width is not None):
+                        return {'ok': False, 'detail': 'scalar vs sub-array element'}
+                    rbo = '<' if re.dtype.byteorder in ('=', '|', '<') else '>'
+                    if re.dtype.byteorder == '=' or re.dtype.byteorder == '|':
+                        rbo = nps.NATIVE
+                    if rbo != se.dtype.byteorder:
+                        return {'ok': False, 'detail': f'element byte order: real {re.dtype.byteorder} stub {se.dtype.byteorder}'}
+                    fmt = {'int16': 'h', 'float32': 'f', 'uint32': 'I', 'float64': 'd'}[name]
+                    be = struct.pack('>' + str(len(want_vals)) + fmt, *want_vals.tolist())
+                    le = struct.pack('<' + str(len(want_vals)) + fmt, *want_vals.tolist())
+                    for how in ('byteswap', 'astype'):
+                        if how == 'byteswap':
+                            rb, sb = re.byteswap().tobytes(), se.byteswap().tobytes()
+                        else:
+                            rb = np.asarray(re).astype(re.dtype.newbyteorder('>')).tobytes()
+                            sb = nps.asarray(se).astype(se.dtype.newbyteorder('>')).tobytes()
+                        tag = sb.parts[0][1].split('|')[2]
+                        cases += 1
+                        if rb != (be if tag == '>' else le):
+                            return {'ok': False, 'detail': f'{how}().tobytes() memory order: stub says {tag}'}
+                        if sb.parts[0][3] - sb.parts[0][2] != len(rb):
+                            return {'ok': False, 'detail': 'tobytes length'}
+    # structured dtype equality and the fast-path view
+    A = np.dtype([('A', '<i4'), ('B', '<f8', 3)])
+    sA = nps.StructDtype([('A', nps.SDtype('int32', '<')), ('B', nps.SDtype('float64', '<'), 3)])
+    variants = [([('A', '<i4'), ('B', '<f8', 3)], [('A', 'int32', '<', None), ('B', 'float64', '<', 3)]),
+                ([('B', '<f8', 3), ('A', '<i4')], [('B', 'float64', '<', 3), ('A', 'int32', '<', None)]),
+                ([('A', '>i4'), ('B', '<f8', 3)], [('A', 'int32', '>', None), ('B', 'float64', '<', 3)]),
+                ([('A', '<i4'), ('B', '<f8', 2)], [('A', 'int32', '<', None), ('B', 'float64', '<', 2)]),
+                ([('A', '<i4'), ('B', '<f4', 3)], [('A', 'int32', '<', None), ('B', 'float32', '<', 3)])]
+    for rv, sv in variants:
+        cases += 1
+        sdt2 = nps.StructDtype([(n, nps.SDtype(t, o), w) if w else (n, nps.SDtype(t, o)) for (n, t, o, w) in sv])
+        if (np.dtype(rv) == A) != (sdt2 == sA):
+            return {'ok': False, 'detail': f'struct dtype equality {rv}'}
+    arr = np.zeros(6, dtype=A)
+    if not np.shares_memory(arr[1:3], arr) or not np.shares_memory(arr['A'], arr):
+        return {'ok': False, 'detail': 'numpy view semantics changed'}
+    if np.dtype(np.float64) != np.float64 or nps.SDtype('float64') != nps.float64:
+        return {'ok': False, 'detail': 'dtype == scalar type'}
+    return {'ok': True, 'cases': cases}
